@@ -710,6 +710,60 @@ def fault_table(p, led, tier):
                  witness="operation holds db, then pre-emptable cache; cache is pre-empted; kill/complete leaves db owned by the dead operation")
     else:
         led.ok("C14-R6", keyp, where(execop, execop.node), f"{pre_paths} path(s): the operation ends de-listed and owning nothing; the pre-emptor keeps what it took")
+    # ---- the work function submits a sub-step to the same system (under its own or under the same operation id) and
+    # then the outer operation fails / succeeds: the outer operation's resources are released all the same
+    re_bad, re_paths = [], 0
+    for sub_id in ("op", "sub"):
+        for ending in ("work raises", "validation refuses", "completes"):
+            def go_r(o, _sub=sub_id, _ending=ending):
+                it = Interp(p, o)
+                it.stubs["PriorityInheritance.__init__"] = lambda interp, args, kwargs: None
+                sysobj = it.instantiate(system, [], {})
+                c = sysobj.fields["controller"]
+                for nm_ in ("r1", "r2"):
+                    c.fields["resources"][nm_] = it.instantiate(lock, [], dict(resource_id=nm_, allow_preemption=False))
+
+                @stub
+                def inner_work(interp, args, kwargs):
+                    return "inner"
+
+                @stub
+                def work(interp, args, kwargs):
+                    try:
+                        interp.call_fi(execop, [sysobj, _sub, "agent", inner_work, [], None, 5], {})
+                    except PyRaise:
+                        pass
+                    if _ending == "work raises":
+                        raise PyRaise(ExcVal("RuntimeError", ("work failed",)))
+                    return "result"
+
+                @stub
+                def validate(interp, args, kwargs):
+                    return _ending != "validation refuses"
+                try:
+                    it.call_fi(execop, [sysobj, "op", "agent", work, ["r1", "r2"], validate, 5], {})
+                except PyRaise as e:
+                    return dict(raised=repr(e.exc), owners={nm_: c.fields["resources"][nm_].fields["owner"] for nm_ in ("r1", "r2")}, active="op" in c.fields["active_operations"])
+                return dict(owners={nm_: c.fields["resources"][nm_].fields["owner"] for nm_ in ("r1", "r2")}, active="op" in c.fields["active_operations"])
+            try:
+                rp = [r for _, r in explore(go_r, max_paths=400)]
+            except Imprecise as e:
+                led.info(f"re-entrant sub-step scenario not interpreted ({e})")
+                continue
+            for r in rp:
+                re_paths += 1
+                tag = f"work submits a sub-step under id {sub_id!r}, then {ending}"
+                held = [k_ for k_, v_ in r["owners"].items() if v_ == "op"]
+                if held:
+                    re_bad.append(f"{tag}: {held} still owned by the ended operation")
+                if r["active"]:
+                    re_bad.append(f"{tag}: the operation is still listed as active")
+    keyr = "CoordinationSystem.execute_operation ▸ a sub-step submitted from the work function does not make the outer operation keep its resources"
+    if re_bad:
+        led.fail("C14-R6", keyr, where(execop, execop.node), sorted(set(re_bad))[0], path=sorted(set(re_bad))[:6],
+                 witness="work() runs a resource-less sub-step under the same operation id, then raises: db / file / gpu stay owned by the ended operation")
+    elif re_paths:
+        led.ok("C14-R6", keyr, where(execop, execop.node), f"{re_paths} path(s): 2 sub-step ids × 3 endings")
     led.floors["C14-R6"] = (1, "aggregated obligations")
     led.extra["fault_table"] = dict(configurations=n_runs[0], paths=n_paths[0], preemption_paths=pre_paths)
-    return not bad and not bad4 and not pre_bad
+    return not bad and not bad4 and not pre_bad and not re_bad
